@@ -553,7 +553,7 @@ def _perm2x128(it, key, a, ce):
     return join(out)
 
 
-@x86("_mm_loadu_si128", "_mm256_loadu_si256", "_mm_lddqu_si128")
+@x86("_mm_loadu_si128", "_mm256_loadu_si256", "_mm_lddqu_si128", "_mm256_lddqu_si256")
 def _loadu(it, key, a, ce):
     return it.deref_read(a[0], "core::core_arch::x86::__m256i" if "256" in key else "core::core_arch::x86::__m128i")
 
@@ -1814,6 +1814,20 @@ def _iter_method(it, key, a, ce):
     if name in ("size_hint", "len"):
         raise Undecided("Iterator::%s" % name)
     raise Undecided("iterator method %s on a modelled iterator" % name)
+
+
+@model("<A as core::slice::cmp::SlicePartialEq<B>>::equal_same_length")
+def _slice_equal_same_length(it, key, a, ce):
+    """Equality of two slices of equal length (memcmp for plain types): the conjunction of the bit equalities."""
+    # signature: unsafe fn equal_same_length(lhs: *const A, rhs: *const B, len: usize) -> bool
+    n = cint(a[2], "slice length")
+    t = ce["generic_args"][0]["ty"]
+    nbits = n * it.ty.size_bits(t)
+    if nbits == 0:
+        return (ONE,)
+    x = it.region_read(a[0], nbits)
+    y = it.region_read(a[1], nbits)
+    return (bv.cmp_bit("eq", x, y),)
 
 
 @model("core::array::<impl [T; N]>::map")
